@@ -331,6 +331,44 @@ def op_text(model, sg, op, kind):
     elif kind in ("LOGISTIC", "TANH"):
         one_scale(T[ins[0]], kind)
         one_scale(T[outs[0]], kind)
+    elif kind == "SLICE":
+        bg, sz = (const_ints(model, T[i]) for i in ins[1:3])
+        if bg is None or sz is None:
+            raise NotSimulated("SLICE:dynamic")
+        shape = T[ins[0]]["shape"]
+        g = [list(bg), [d - b0 if s0 == -1 else s0 for b0, s0, d in zip(bg, sz, shape)]]
+        ins = ins[:1]
+    elif kind == "SPLIT_V":
+        sizes, axis_v = const_ints(model, T[ins[1]]), const_ints(model, T[ins[2]])
+        if sizes is None or axis_v is None:
+            raise NotSimulated("SPLIT_V:dynamic")
+        shape = T[ins[0]]["shape"]
+        ax = axis_v[0] + len(shape) if axis_v[0] < 0 else axis_v[0]
+        rest = shape[ax] - sum(s0 for s0 in sizes if s0 >= 0)
+        g = [[ax], [rest if s0 < 0 else s0 for s0 in sizes]]
+        ins = ins[:1]
+    elif kind == "PACK":
+        rank = len(T[outs[0]]["shape"])
+        ax = opt(op, 1, "i", 0)
+        if any(qparams(T[i]) != qparams(T[outs[0]]) for i in ins):
+            raise NotSimulated("PACK:quantisation_differs")
+        g = [[ax + rank if ax < 0 else ax]]
+    elif kind == "UNPACK":
+        rank = len(T[ins[0]]["shape"])
+        ax = opt(op, 1, "i", 0)
+        if any(qparams(T[i]) != qparams(T[ins[0]]) for i in outs):
+            raise NotSimulated("UNPACK:quantisation_differs")
+        g = [[ax + rank if ax < 0 else ax, opt(op, 0, "i", 0)]]
+    elif kind == "ABS":
+        si, _ = one_scale(T[ins[0]], kind)
+        so, _ = one_scale(T[outs[0]], kind)
+        if T[ins[0]]["type"] not in ("int8", "int16") or T[outs[0]]["type"] != T[ins[0]]["type"]:
+            raise NotSimulated(f"ABS:{T[ins[0]]['type']}")
+        if si != so:
+            m, sh = quantize_multiplier(np.float64(f32(si / so)))
+            g = [[1, m, sh]]
+        else:
+            g = [[0, 0, 0]]
     elif kind == "ARG_MAX":
         axis_v = const_ints(model, T[ins[1]])
         if axis_v is None:
